@@ -576,6 +576,56 @@ def wshape(ctx, t, memo):
     return ident
 
 
+
+# logical types of the fields of the logical Pczt (how a leaf of the Debug tree is embedded in a wire value)
+_LSTRUCTS = {("common", "Global"), ("transparent", "Bundle"), ("transparent", "Input"), ("transparent", "Output"),
+             ("sapling", "Bundle"), ("sapling", "Spend"), ("sapling", "Output"),
+             ("orchard", "Bundle"), ("orchard", "Action"), ("orchard", "Spend"), ("orchard", "Output")}
+
+
+def ltype(ctx, t, memo):
+    t = t.strip().replace("crate::", "")
+    if t in ("u8", "u16", "u32", "u64", "u128", "i64", "i128"):
+        return "LNum"
+    if re.fullmatch(r"Option<.+>", t):
+        return "LOpt"
+    if re.fullmatch(r"BTreeMap<.+>", t):
+        return "LMap"
+    if t.split("::")[-1] == "EncCiphertext":
+        return "LEnum"
+    m = re.fullmatch(r"Vec<([A-Za-z_:]+)>", t)
+    if m and re.fullmatch(r"[A-Za-z0-9_:]+", m.group(1)):
+        c, name = _resolve(ctx, m.group(1))
+        if (c, name) in _LSTRUCTS:
+            return "(LVec %s)" % ltype(ctx, m.group(1), memo)
+    if re.fullmatch(r"[A-Za-z0-9_:]+", t):
+        c, name = _resolve(ctx, t) if ("::" in t or t[0].isupper()) else (ctx, t)
+        if (c, name) in _LSTRUCTS:
+            key = (c, name)
+            if key not in memo:
+                rel, mod = _CTX[c]
+                fs = decl_struct(rel, mod, name)
+                body = "LRec [%s]" % "; ".join(ltype(c, ty, memo) for _, ty in fs)
+                memo[key] = ("L_%s_%s" % (c, name), body, len(memo))
+            return memo[key][0]
+    return "LAtom"
+
+
+def ltype_gen():
+    memo = {}
+    fs = decl_struct(F_LIB, None, "Pczt")
+    tops = []
+    for f, ty in fs:
+        ty = ty.replace("crate::", "")
+        tops.append(ltype(ty.split("::")[0], ty, memo))
+    out = []
+    for (c, name), (ident, body, _k) in sorted(memo.items(), key=lambda kv: kv[1][2]):
+        out.append("Definition %s : ltype := %s." % (ident, body))
+    out.append("(* Pczt { %s } *)" % ", ".join(f for f, _ in fs))
+    out.append("Definition L_pczt_fields : list ltype := [%s]." % "; ".join(tops))
+    return "\n".join(out) + "\n"
+
+
 def wire_gen():
     lib = _strip(srcgen.read(F_LIB))
     out = ["From Coq Require Import List NArith.", "From V.C13 Require Import Postcard.", "Import ListNotations.",
@@ -598,7 +648,8 @@ def wire_gen():
         fs, shapes = tops[ver]
         out.append("(* %s::Pczt { %s } *)" % (ver, ", ".join(f for f, _ in fs)))
         out.append("Definition W_%s : wshape := WTup [%s]." % (ver, "; ".join(shapes)))
-    return "\n".join(out) + "\n"
+    out.append("(* logical types of the logical Pczt *)")
+    return "\n".join(out) + "\n" + ltype_gen()
 
 
 class C13(Config):
@@ -649,11 +700,13 @@ class C13(Config):
         "order/grouping independence, idempotence, field keeping and conflict are theorems about the code's merge of whole "
         "PCZTs (pczt_merge, including the hand-transcribed bsk/value_sum/length rules) on well-shaped copies of ONE shielded "
         "shape (same_len); copies of different shielded shape are outside (refuted lemma: an IO-finalised copy no longer "
-        "accepts a shorter one); the bridge theorem covers the combine cases whose parties have one shielded shape",
-        "byte layer: postcard + header round trip and totality are proved on serde (wire) trees for the regenerated v1/v2 "
-        "shapes; the v1/v2 conversions (representability, elision, anchor normalisation) are modelled on logical trees; the "
-        "embedding of logical leaves into wire values is not composed in Coq (both halves are tied to the implementation by "
-        "correspondence: CSer and CBytes); exact logical round trip is guarded by the known finding C13-roundtrip-anchor",
+        "accepts a shorter one); the full bridge covers the combine cases whose parties have one shielded shape; for any "
+        "shapes a second bridge gives every clause except order independence and the exact value_sum of a same-shape copy",
+        "byte layer: Pczt::parse (Pczt::serialize p) = Ok p is proved on BYTES through the embedding of logical trees into "
+        "serde values (wire_of, directed by the regenerated logical types and wire shapes) for every p on which the encoder "
+        "is defined and outside the explicitly described anchor class; the leaf encoding is an arbitrary injective function "
+        "in the theorem and the per-case leaf table in the correspondence (CSerB: real bytes reproduced exactly); UTF-8 "
+        "validation and the v2 required-field check are not modelled on the decoding side",
         "extraction: the model's transaction (tx_of) is proved to depend only on the effecting fields and agrees with "
         "Pczt::into_effects on all generated PCZTs; where the code recomputes a redacted field (cv_net, cmx, memo plaintext) "
         "or an input requires a lock time the model leaves the transaction undetermined; TransactionExtractor (binding "
